@@ -1,11 +1,20 @@
 """C03 — DataFrame operators agree with a list-of-tuples model.
 
 Programs of operators (each applied to the base frame or to the result of an earlier
-operator) are run on orso.DataFrame, on Model/Frame.lean (through the driver) and on a
-plain-Python mirror of the list specification.  implementation vs. mirror = the oracle;
-implementation vs. Lean model = correspondence; Lean model vs. mirror = harness self-check.
+operator; iterators are program registers too: `iter` opens one, `next` pulls rows from it,
+so partial, abandoned and interleaved iteration are program steps) are run on
+orso.DataFrame, on Model/FrameProg.lean (through the driver: the list specification
+`specEval` *and* the lazy-state machine `implEval`) and on a plain-Python mirror of the list
+specification.  implementation vs. mirror = the oracle; Lean specification vs. mirror =
+harness self-check; the Lean state machine's laziness/spent flags vs. the objects = soft
+correspondence (recorded, never an alarm: laziness is not an output).
+
+Case format (old cases — `typed: bool`, `lazy: bool` — still replay):
+  names, schema ("list" | "tuple" | "typed" | "aliased" | "dicts"), aliases (per column, for
+  "aliased"), lazy (False | "gen" | "iter" | "map"), rows, ops, read.
 """
 import itertools
+import re
 
 from .. import wire
 from ..core import InfraError, shrink
@@ -13,6 +22,41 @@ from ..core import InfraError, shrink
 FRAME_OPS = ("head", "tail", "slice", "filter", "take", "query", "select", "distinct", "add")
 LAZY_RESULT = ("filter", "take", "select")  # generator-backed results
 CONSUMES_LAZY_SOURCE = ("filter", "take", "query", "select", "distinct")  # iterate _rows without materialising
+OP_LEN = {"head": (3,), "tail": (3,), "slice": (4,), "filter": (3, 4), "take": (3, 4), "query": (3,), "select": (3, 4),
+          "distinct": (2,), "add": (3,), "batches": (3,), "collect": (6,), "row": (3,), "len": (3,), "append": (3,),
+          "iter": (2,), "next": (3,), "zip": (3,), "hash": (2,)}
+SCHEMAS = ("list", "tuple", "typed", "aliased", "dicts")
+LAZIES = ("gen", "iter", "map")
+
+
+def schema_of(case):
+    s = case.get("schema")
+    if s is None:
+        return "typed" if case.get("typed") else "list"
+    return s
+
+
+def lazy_of(case):
+    l = case.get("lazy")
+    if l is True:
+        return "gen"
+    return l or False
+
+
+def kind_of(case):
+    """The kind of schema object the frame carries (what `+` compares)."""
+    s = schema_of(case)
+    return {"list": "list", "dicts": "list", "tuple": "tuple", "typed": "typed", "aliased": "typed"}[s]
+
+
+def aliases_of(case):
+    if schema_of(case) == "aliased":
+        return [list(a) for a in case["aliases"]]
+    return [[] for _ in case["names"]]
+
+
+def base_is_lazy(case):
+    return bool(lazy_of(case)) and schema_of(case) != "dicts"
 
 
 # ----------------------------------------------------------------------------- mirror (the list spec)
@@ -33,41 +77,47 @@ def m_pred(p):
 def mirror_step(res, op):
     k = op[0]
     f = res[op[1]]
+    if k == "next":
+        if f[0] != "iter":
+            raise InfraError("source is not an iterator")
+        out = f[1][f[2] : f[2] + op[2]]
+        f[2] += len(out)
+        return ["val", out]
     if f[0] != "frame":
         raise InfraError("source is not a frame")
-    names, typed, rows = f[1], f[2], f[3]
+    names, kind, rows = f[1], f[2], f[3]
     n = len(rows)
     if k == "head":
-        return ["frame", names, typed, rows[: op[2]]]
+        return ["frame", names, kind, rows[: op[2]]]
     if k == "tail":
         kk = min(op[2], n)
-        return ["frame", names, typed, rows[n - kk :]]
+        return ["frame", names, kind, rows[n - kk :]]
     if k == "slice":
         o, l = op[2], op[3]
         start = o if o >= 0 else max(n + o, 0)
-        return ["frame", names, typed, rows[start:] if l is None else rows[start : start + l]]
+        return ["frame", names, kind, rows[start:] if l is None else rows[start : start + l]]
     if k == "filter":
-        return ["frame", names, typed, [r for r, m in zip(rows, op[2]) if m]]
+        return ["frame", names, kind, [r for r, m in zip(rows, op[2]) if m]]
     if k == "take":
-        return ["frame", names, typed, [r for i, r in enumerate(rows) if i in op[2]]]
+        return ["frame", names, kind, [r for i, r in enumerate(rows) if i in op[2]]]
     if k == "query":
         p = m_pred(op[2])
-        return ["frame", names, typed, [r for r in rows if p(r)]]
+        return ["frame", names, kind, [r for r in rows if p(r)]]
     if k == "select":
         hdr = [a for a in op[2] if a in names]
         idx = [names.index(a) for a in hdr]
-        return ["frame", hdr, False, [[r[i] for i in idx] for r in rows]]
+        return ["frame", hdr, "list", [[r[i] for i in idx] for r in rows]]
     if k == "distinct":
         out = []
         for r in rows:
             if r not in out:
                 out.append(r)
-        return ["frame", names, typed, out]
+        return ["frame", names, kind, out]
     if k == "add":
         g = res[op[2]]
-        if names != g[1] or typed != g[2]:
+        if names != g[1] or kind != g[2]:
             return ["err", "ValueError"]
-        return ["frame", names, typed, rows + g[3]]
+        return ["frame", names, kind, rows + g[3]]
     if k == "batches":
         return ["val", [rows[i : i + op[2]] for i in range(0, n, op[2])]]
     if k == "collect":
@@ -92,11 +142,18 @@ def mirror_step(res, op):
         return ["val", rows[i]]
     if k == "len":
         return ["val", n]
+    if k == "hash":
+        return ["val", None]
+    if k == "iter":
+        return ["iter", list(rows), 0]
+    if k == "zip":
+        g = res[op[2]]
+        return ["val", [[a, b] for a, b in zip(rows, g[3])]]
     raise InfraError("bad op " + repr(op))
 
 
 def run_mirror(case):
-    res = [["frame", list(case["names"]), bool(case["typed"]), [list(r) for r in case["rows"]]]]
+    res = [["frame", list(case["names"]), kind_of(case), [list(r) for r in case["rows"]]]]
     for op in case["ops"]:
         if op[0] == "append":  # in-place: only the target frame changes
             f = res[op[1]]
@@ -135,39 +192,74 @@ def tolist(x):
 
 
 def make_base(case):
+    """Every way a frame's schema and rows can be given."""
     from orso import DataFrame
     from orso.schema import FlatColumn, RelationSchema
 
     rows = [tuple(r) for r in case["rows"]]
-    if case["typed"]:
-        schema = RelationSchema(name="t", columns=[FlatColumn(name=n, type="INTEGER") for n in case["names"]])
+    names = list(case["names"])
+    sk = schema_of(case)
+    lz = lazy_of(case)
+    if sk == "dicts":
+        dicts = [dict(zip(names, r)) for r in rows]
+        return DataFrame((d for d in dicts) if lz else dicts)
+    if sk == "typed":
+        schema = RelationSchema(name="t", columns=[FlatColumn(name=n, type="INTEGER") for n in names])
+    elif sk == "aliased":
+        schema = RelationSchema(name="t", columns=[FlatColumn(name=n, type="INTEGER", aliases=list(a))
+                                                   for n, a in zip(names, case["aliases"])])
+    elif sk == "tuple":
+        schema = tuple(names)
     else:
-        schema = list(case["names"])
-    if case["lazy"]:
+        schema = names
+    if lz == "gen":
         return DataFrame(rows=(r for r in rows), schema=schema)
+    if lz == "iter":
+        return DataFrame(rows=iter(list(rows)), schema=schema)
+    if lz == "map":
+        return DataFrame(rows=map(tuple, [list(r) for r in rows]), schema=schema)
     return DataFrame(rows=list(rows), schema=schema)
 
 
+def arg_form(values, form, what="names"):
+    import numpy
+
+    if form in (None, "list"):
+        return list(values)
+    if form == "tuple":
+        return tuple(values)
+    if form == "set":
+        return set(values)
+    if form == "frozenset":
+        return frozenset(values)
+    if form == "iter":
+        return iter(list(values))
+    if form == "numpy":
+        return numpy.array(list(values), dtype=bool if what == "mask" else numpy.int64)
+    if form == "bare":
+        return values[0]
+    raise InfraError("bad argument form %r" % (form,))
+
+
 def run_impl(case):
-    """Returns per step ('frame', df) / ('val', v) / ('err', cls) plus bookkeeping for reading frames."""
+    """Returns per step ('frame', df) / ('val', v) / ('err', cls) / ('iter', it) plus bookkeeping for reading frames."""
     frames = [("frame", make_base(case))]
-    lazy = [bool(case["lazy"])]  # backed by a generator that has not been materialised
     spent = [False]
     snapshots = {}  # index -> copy of rows, for materialised frames
-    if not case["lazy"]:
+    if isinstance(frames[0][1]._rows, list):
         snapshots[0] = [list(r) for r in frames[0][1]._rows]
     for op in case["ops"]:
         k = op[0]
         si = op[1]
-        df = frames[si][1]
-        srcs = [si] + ([op[2]] if k == "add" else [])
-        if any(frames[s_][0] != "frame" for s_ in srcs):
+        srcs = [si] + ([op[2]] if k in ("add", "zip") else [])
+        want = "iter" if k == "next" else "frame"
+        if any(frames[s_][0] != want for s_ in srcs):
             # an earlier step failed on the implementation (already reported there)
             frames.append(("err", "SourceUnavailable"))
-            lazy.append(False)
             spent.append(False)
             continue
-        was_lazy = {s_: not isinstance(frames[s_][1]._rows, list) for s_ in srcs}
+        df = frames[si][1]
+        was_lazy = {s_: not isinstance(frames[s_][1]._rows, list) for s_ in srcs} if k != "next" else {}
         try:
             if k == "head":
                 out = ("frame", df.head(op[2]))
@@ -176,13 +268,13 @@ def run_impl(case):
             elif k == "slice":
                 out = ("frame", df.slice(op[2], op[3]))
             elif k == "filter":
-                out = ("frame", df.filter(list(op[2])))
+                out = ("frame", df.filter(arg_form(op[2], op[3] if len(op) > 3 else None, "mask")))
             elif k == "take":
-                out = ("frame", df.take(list(op[2])))
+                out = ("frame", df.take(arg_form(op[2], op[3] if len(op) > 3 else None, "indexes")))
             elif k == "query":
                 out = ("frame", df.query(i_pred(op[2])))
             elif k == "select":
-                out = ("frame", df.select(list(op[2])))
+                out = ("frame", df.select(arg_form(op[2], op[3] if len(op) > 3 else None)))
             elif k == "distinct":
                 out = ("frame", df.distinct())
             elif k == "add":
@@ -210,6 +302,22 @@ def run_impl(case):
                 out = ("val", list(df.row(op[2])))
             elif k == "len":
                 out = ("val", [len(df), df.rowcount, df.shape[0]][op[2] % 3])
+            elif k == "hash":
+                # the value is not part of the property; hashing twice must agree and must not disturb the frame
+                h1, h2 = hash(df), hash(df)
+                out = ("val", None if h1 == h2 else "hash(frame) changed between two calls")
+            elif k == "iter":
+                out = ("iter", iter(df))
+            elif k == "next":
+                got = []
+                for _ in range(op[2]):
+                    try:
+                        got.append(list(next(df)))
+                    except StopIteration:
+                        break
+                out = ("val", got)
+            elif k == "zip":
+                out = ("val", [[list(a), list(b)] for a, b in zip(df, frames[op[2]][1])])
             else:
                 raise InfraError("bad op " + repr(op))
         except InfraError:
@@ -218,31 +326,37 @@ def run_impl(case):
             out = ("err", type(e).__name__)
         # a generator-backed source that was iterated without being materialised is spent
         for s_ in srcs:
-            if was_lazy[s_] and k in CONSUMES_LAZY_SOURCE:
+            if was_lazy.get(s_) and k in CONSUMES_LAZY_SOURCE:
                 spent[s_] = True
         frames.append(out)
-        is_lazy = out[0] == "frame" and not isinstance(out[1]._rows, list)
-        lazy.append(is_lazy)
         spent.append(False)
-        if out[0] == "frame" and not is_lazy:
-            snapshots[len(frames) - 1] = [list(r) for r in out[1]._rows]
-    return frames, lazy, spent, snapshots
-
-
-def list_rows(df):
-    return [r for r in df]
+        # every frame that is materialised now and has no snapshot yet gets one (sources are
+        # materialised by the operators that read them)
+        for j, f in enumerate(frames):
+            if f[0] == "frame" and j not in snapshots and isinstance(f[1]._rows, list):
+                snapshots[j] = [list(r) for r in f[1]._rows]
+    return frames, spent, snapshots
 
 
 def read_frame(df, how):
     """Read a frame's listing once. `how` selects the reading style."""
+    peek = None
     if how == 0:
         rows = [list(r) for r in df]  # for-iteration
     elif how == 1:
         rows = [list(r) for r in list(df)]  # list()
-    else:
+    elif how == 2:
         rows = [list(df.row(i)) for i in range(len(df))]
+    else:
+        # an abandoned iteration first (peek at the first row), then a complete one
+        it = iter(df)
+        first = next(it, None)
+        del it
+        rows = [list(r) for r in df]
+        if (first is None) != (not rows) or (first is not None and list(first) != rows[0]):
+            peek = ["first row of an abandoned iteration", None if first is None else list(first)]
     names = list(df.column_names)
-    return names, rows, len(df), df.rowcount, df.shape
+    return names, rows, len(df), df.rowcount, df.shape, peek
 
 
 def model_line(case):
@@ -250,11 +364,13 @@ def model_line(case):
     for op in case["ops"]:
         if op[0] == "collect":
             ops.append(["collect", op[1], op[2], op[3]])
+        elif op[0] in ("select", "filter", "take"):
+            ops.append(list(op[:3]))
         elif op[0] == "len":
-            ops.append(["len", op[1]])
+            ops.append(["len", op[1], op[2] % 3])
         else:
             ops.append(list(op))
-    return "C03 prog " + wire.line(case["names"], bool(case["typed"]), case["rows"], ops)
+    return "C03 prog " + wire.line(case["names"], kind_of(case), aliases_of(case), base_is_lazy(case), case["rows"], ops)
 
 
 def valid_case(c):
@@ -262,17 +378,29 @@ def valid_case(c):
         w = len(c["names"])
         if len(set(c["names"])) != w or any(len(r) != w for r in c["rows"]):
             return False
+        if not all(isinstance(x, str) and re.fullmatch(r"c\d+", x) for x in c["names"]):
+            return False  # (keeps the shrinker from renaming columns)
+        sk = schema_of(c)
+        if sk not in SCHEMAS or lazy_of(c) not in (False,) + LAZIES:
+            return False
+        if sk == "aliased":
+            al = c.get("aliases")
+            if not isinstance(al, list) or len(al) != w or not all(isinstance(a, list) and all(isinstance(x, str) for x in a) for a in al):
+                return False
+        if sk == "dicts" and not c["rows"]:
+            return False
         nres = 1
         kinds = ["frame"]
+        typed_of = [kind_of(c) == "typed"]
+        has_iter = set()
         for op in c["ops"]:
             if not isinstance(op, list) or len(op) < 2 or not isinstance(op[1], int) or not (0 <= op[1] < nres):
                 return False
-            if kinds[op[1]] != "frame":
-                return False
             k = op[0]
-            ln = {"head": 3, "tail": 3, "slice": 4, "filter": 3, "take": 3, "query": 3, "select": 3, "distinct": 2,
-                  "add": 3, "batches": 3, "collect": 6, "row": 3, "len": 3, "append": 3}.get(k)
-            if ln is None or len(op) != ln:
+            if kinds[op[1]] != ("iter" if k == "next" else "frame"):
+                return False
+            ln = OP_LEN.get(k)
+            if ln is None or len(op) not in ln:
                 return False
             if k in ("head", "tail") and (not isinstance(op[2], int) or op[2] < 0):
                 return False
@@ -280,69 +408,145 @@ def valid_case(c):
                 return False
             if k == "batches" and (not isinstance(op[2], int) or op[2] < 1):
                 return False
-            if k == "add" and (not isinstance(op[2], int) or not (0 <= op[2] < nres) or kinds[op[2]] != "frame"):
+            if k in ("add", "zip") and (not isinstance(op[2], int) or not (0 <= op[2] < nres) or kinds[op[2]] != "frame"):
                 return False
-            if k == "filter" and not all(isinstance(b, bool) for b in op[2]):
+            if k == "filter" and (not all(isinstance(b, bool) for b in op[2]) or (len(op) == 4 and op[3] not in ("list", "tuple", "numpy", "iter"))):
                 return False
-            if k == "take" and not all(isinstance(b, int) and not isinstance(b, bool) for b in op[2]):
+            if k == "take" and (not all(isinstance(b, int) and not isinstance(b, bool) for b in op[2])
+                                or (len(op) == 4 and op[3] not in ("list", "tuple", "set", "frozenset", "numpy"))):
                 return False
-            if k == "select" and not all(isinstance(b, str) for b in op[2]):
+            if k == "select" and (not all(isinstance(b, str) for b in op[2]) or (len(op) == 4 and (op[3] not in ("list", "tuple", "bare")
+                                                                                                    or (op[3] == "bare" and len(op[2]) != 1)))):
                 return False
             if k == "query" and (not isinstance(op[2], list) or op[2][0] not in ("true", "false", "eq", "ne")):
                 return False
-            if k == "collect" and (not op[2] and op[4] == "single"):
+            if k == "collect" and (op[4] not in ("single", "multi") or (not op[2] and op[4] == "single") or not isinstance(op[5], bool)
+                                   or not (op[3] is None or isinstance(op[3], int))):
                 return False
             if k in ("row", "len") and not isinstance(op[2], int):
                 return False
-            if k == "append" and not isinstance(op[2], list):
+            if k == "next" and (not isinstance(op[2], int) or op[2] < 0):
                 return False
-            kinds.append("frame" if k in FRAME_OPS else "val")
+            if k == "append" and (not isinstance(op[2], list) or len(op[2]) != w_of(c, op[1]) or typed_of[op[1]] or op[1] in has_iter):
+                return False
+            if k == "iter":
+                has_iter.add(op[1])
+            kinds.append("frame" if k in FRAME_OPS else ("iter" if k == "iter" else "val"))
+            typed_of.append(k in FRAME_OPS and k != "select" and typed_of[op[1]])
             nres += 1
         return True
     except Exception:
         return False
 
 
-def check_case(ctx_or_none, case, mline_out=None):
-    """Returns (clause or None, impl summary, disagreement or None). Raises InfraError on harness faults."""
-    mirror = run_mirror(case)
-    frames, lazy, spent, snapshots = run_impl(case)
+def w_of(case, reg):
+    """Width of frame register `reg` (mirror)."""
+    res = run_mirror({**case, "ops": case["ops"][:reg]}) if reg else None
+    if reg == 0:
+        return len(case["names"])
+    return len(res[reg][1])
+
+
+def alias_probe(frames, mirror, spent):
+    """No two frames share their rows: after the program (every live frame has been read, so all are materialised)
+    a sentinel row is appended to each names-only frame in turn; every other frame must list what it listed before."""
+    live = [(i, out[1]) for i, (out, mir) in enumerate(zip(frames, mirror)) if out[0] == "frame" and mir[0] == "frame" and not spent[i]]
+    if len(live) < 2:
+        return None
+    try:
+        listing = {i: [list(r) for r in df] for i, df in live}
+    except Exception:
+        return None
+    for i, df in live:
+        if mirror[i][2] == "typed":
+            continue  # typed frames validate what is appended: C05
+        sentinel = ["sentinel-%d" % i] * len(mirror[i][1])
+        try:
+            df.append(tuple(sentinel))
+        except Exception as e:
+            return "appending a row to frame %d raised %s" % (i, type(e).__name__)
+        listing[i] = listing[i] + [sentinel]
+        for j, dj in live:
+            try:
+                now = [list(r) for r in dj]
+            except Exception as e:
+                return "reading frame %d after an append to frame %d raised %s" % (j, i, type(e).__name__)
+            if now != listing[j]:
+                if j == i:
+                    return "append to frame %d did not add exactly that row at the end" % i
+                return "after a row was appended to frame %d, frame %d lists different rows (shared rows or stale iteration state)" % (i, j)
+    return None
+
+
+def check_case(ctx_or_none, case, want_state=False):
+    """Returns (clause or None, impl summary, mirror[, state]). Raises InfraError on harness faults."""
+    mirror0 = run_mirror(case)
+    frames, spent, snapshots = run_impl(case)
+    # the mirror's iterator registers were advanced by the program; keep their final positions
+    mirror = mirror0
     if snapshots.pop("ambiguous", False):
-        return None, [["skipped", "append while an unread generator-backed frame exists"]], mirror
+        out = (None, [["skipped", "append while an unread generator-backed frame exists"]], mirror)
+        return out + (None,) if want_state else out
     impl_summary = []
     clause = None
     how = case.get("read", 0)
+    state = [None] * len(frames)
     for i, (out, mir) in enumerate(zip(frames, mirror)):
+        if out[0] == "frame":
+            state[i] = "spent" if spent[i] else ("lazy" if not isinstance(out[1]._rows, list) else "eager")
+
+    def drain_iterators():
+        nonlocal clause
+        for i, (out, mir) in enumerate(zip(frames, mirror)):
+            if out[0] != "iter" or mir[0] != "iter":
+                continue
+            try:
+                rest = [list(r) for r in out[1]]
+            except Exception as e:
+                clause = clause or "draining iterator %d raised %s" % (i, type(e).__name__)
+                continue
+            if rest != mir[1][mir[2]:]:
+                clause = clause or "iterator %d does not yield the remaining rows of its frame once, in order" % i
+
+    if how % 2 == 1:
+        drain_iterators()
+    for i, (out, mir) in enumerate(zip(frames, mirror)):
+        opn = case["ops"][i - 1][0] if i else "base"
         if out[0] == "err":
             impl_summary.append(["err", out[1]])
             if mir[0] != "err":
-                clause = clause or "step %d (%s) raised %s" % (i, case["ops"][i - 1][0], out[1])
+                clause = clause or "step %d (%s) raised %s" % (i, opn, out[1])
             elif mir[1] != out[1]:
-                clause = clause or "step %d (%s) raised %s, expected %s" % (i, case["ops"][i - 1][0], out[1], mir[1])
+                clause = clause or "step %d (%s) raised %s, expected %s" % (i, opn, out[1], mir[1])
             continue
         if mir[0] == "err":
             impl_summary.append([out[0], "?"])
-            clause = clause or "step %d (%s) did not raise %s" % (i, case["ops"][i - 1][0], mir[1])
+            clause = clause or "step %d (%s) did not raise %s" % (i, opn, mir[1])
             continue
         if out[0] == "val":
             impl_summary.append(["val", out[1]])
             if out[1] != mir[1]:
-                clause = clause or "step %d (%s) returned a different value than the list model" % (i, case["ops"][i - 1][0])
+                clause = clause or "step %d (%s) returned a different value than the list model" % (i, opn)
+            continue
+        if out[0] == "iter":
+            impl_summary.append(["iter"])
             continue
         # frame
         if spent[i]:
             impl_summary.append(["frame", "spent"])
             continue
         try:
-            names, rows, ln, rc, shape = read_frame(out[1], (how + i) % 3)
+            names, rows, ln, rc, shape, peek = read_frame(out[1], (how + i) % 4)
         except Exception as e:
             impl_summary.append(["frame", "read-raised", type(e).__name__])
             clause = clause or "reading frame %d raised %s" % (i, type(e).__name__)
             continue
         impl_summary.append(["frame", names, rows])
-        opn = case["ops"][i - 1][0] if i else "base"
         if rows != mir[3]:
-            clause = clause or "frame %d (%s) lists different rows than the list model" % (i, opn)
+            clause = clause or "frame %d (%s) lists different rows than the list model%s" % (
+                i, opn, " (read after an abandoned iteration)" if (how + i) % 4 == 3 else "")
+        elif peek is not None:
+            clause = clause or "frame %d (%s): an abandoned iteration yielded %r first, the listing starts differently" % (i, opn, peek[1])
         elif names != mir[1]:
             clause = clause or "frame %d (%s) has different column names than the list model" % (i, opn)
         elif not (ln == rc == shape[0] == len(rows)) or shape[1] != len(names):
@@ -352,47 +556,105 @@ def check_case(ctx_or_none, case, mline_out=None):
             again = [list(r) for r in out[1]]
             if again != rows:
                 clause = clause or "frame %d (%s) lists different rows when read again" % (i, opn)
+    if how % 2 == 0:
+        drain_iterators()
     for i, snap in snapshots.items():
         now = frames[i][1]._rows
         if not isinstance(now, list) or [list(r) for r in now] != snap:
             clause = clause or "materialised source frame %d was altered" % i
+    if clause is None:
+        clause = alias_probe(frames, mirror, spent)
+    if want_state:
+        return clause, impl_summary, mirror, state
     return clause, impl_summary, mirror
 
 
-def compare_model(case, mirror, mo):
+_AS_PINNED = None
+
+
+def source_as_pinned():
+    """True when every definition the extractor lifted from the source is the reference one: then the Lean
+    specification and the mirror are the same function and a difference is a harness fault; otherwise the
+    difference is the source's (the regenerated model follows the code) and is reported as a disagreement."""
+    global _AS_PINNED
+    if _AS_PINNED is None:
+        import json
+        import os
+
+        from ..extract import GEN_DIR
+
+        try:
+            _AS_PINNED = bool(json.load(open(os.path.join(GEN_DIR, "generated.json"))).get("frame.source_as_pinned", True))
+        except Exception:
+            _AS_PINNED = True
+    return _AS_PINNED
+
+
+def compare_model(case, mirror, mo, state=None, ctx=None):
     if not mo.startswith("ok "):
         raise InfraError("model rejected case %r: %r" % (case, mo))
-    res = wire.dec_all(mo[3:])[0]
-    if len(res) != len(mirror):
-        raise InfraError("model returned %d results for %d steps" % (len(res), len(mirror)))
-    for i, (m, mir) in enumerate(zip(res, mirror)):
+    spec, mach, wf = wire.dec_all(mo[3:])[:3]
+    if ctx is not None:
+        # is the program inside the scope of C03.eval_refines (wfProgB, sound by C03.wfProgB_sound)?
+        ctx.hit("refinement-theorem-scope:" + ("inside" if wf else "outside"))
+    if len(spec) != len(mirror) or (mach and len(mach) != len(mirror)):
+        raise InfraError("model returned %d/%d results for %d steps" % (len(spec), len(mach), len(mirror)))
+    if not mach and ctx is not None:
+        ctx.hit("state-machine:stopped (the program uses a frame the machine regards as spent)")
+    for i, (m, mir) in enumerate(zip(spec, mirror)):
         if m[0] == "frame":
-            ok = mir[0] == "frame" and m[1] == mir[1] and m[2] == mir[3]
+            ok = mir[0] == "frame" and m[1] == mir[1] and m[2] == mir[2] and m[3] == mir[3]
         elif m[0] == "val":
             ok = mir[0] == "val" and m[1] == mir[1]
+        elif m[0] == "iter":
+            ok = mir[0] == "iter" and m[1] == mir[2]
         else:
             ok = mir[0] == "err" and m[1] == mir[1]
         if not ok:
-            raise InfraError("Lean model and Python mirror differ at step %d of %r: %r vs %r" % (i, case, m, mir))
-    return res
+            if source_as_pinned() or ctx is None:
+                raise InfraError("Lean model and Python mirror differ at step %d of %r: %r vs %r" % (i, case, m, mir))
+            ctx.disagree(case, mirror, spec, what="the model regenerated from the source differs from the list specification at step %d" % i)
+            return spec
+    if state is not None and ctx is not None:
+        # the state machine's view of laziness against the objects (soft: recorded only)
+        for i, (mm, st) in enumerate(zip(mach, state)):
+            if st is None:
+                continue
+            mst = "spent" if mm[0] == "spent" else ("lazy" if mm[0] == "frame" and mm[1] else "eager")
+            ctx.hit("lazy-state:" + ("agrees" if mst == st else "differs(%s/%s)" % (st, mst)))
+    return spec
+
+
+_REPORTED = set()
 
 
 def evaluate(ctx, cases):
     mouts = ctx.model.batch([model_line(c) for c in cases])
     for c, mo in zip(cases, mouts):
-        clause, impl, mirror = check_case(ctx, c)
-        if clause is None:
-            # implementation = list spec here, so the Lean model (whose window arithmetic is regenerated from
-            # the source) must agree with both; a difference now can only be the wire or the driver
-            compare_model(c, mirror, mo)
+        clause, impl, mirror, state = check_case(ctx, c, want_state=True)
+        if clause is None and impl and impl[0] and impl[0][0] == "skipped":
+            ctx.hit("skipped:ambiguous-append")
+        elif clause is None:
+            # implementation = list spec here, so the Lean model (whose window arithmetic, comprehensions and
+            # laziness table are regenerated from the source) must agree with both; a difference now can only
+            # be the wire or the driver
+            compare_model(c, mirror, mo, state, ctx)
         ctx.case(c, nontrivial=len(c["rows"]) >= 1 and len(c["ops"]) >= 1)
         for op in c["ops"]:
             ctx.hit("op:" + op[0])
+            if len(op) == 4 and op[0] in ("select", "filter", "take"):
+                ctx.hit("argform:%s/%s" % (op[0], op[3]))
         ctx.hit("rows:%d" % min(len(c["rows"]), 9))
         ctx.hit("cols:%d" % len(c["names"]))
-        ctx.hit(("lazy" if c["lazy"] else "eager") + ("/typed" if c["typed"] else "/names"))
+        ctx.hit("backing:%s/schema:%s" % (lazy_of(c) or "list", schema_of(c)))
+        ctx.hit("cells:" + ("unhashable" if any(isinstance(x, list) for r in c["rows"] for x in r) else
+                            ("mixed" if any(not isinstance(x, int) or abs(x) > 2 for r in c["rows"] for x in r) else "small ints")))
         if clause is not None:
             norm = lambda s: None if s is None else "".join(ch for ch in s if not ch.isdigit())
+            if norm(clause) in _REPORTED and not ctx.replaying:
+                ctx.hit("violation-dup:" + norm(clause))  # same clause at another register index: one replay is enough
+                continue
+            _REPORTED.add(norm(clause))
 
             def still(c2):
                 if not valid_case(c2):
@@ -410,41 +672,57 @@ def evaluate(ctx, cases):
 # ----------------------------------------------------------------------------- generators
 
 
-def gen_op(rng, kinds, names_of, nrows_of, allow=None):
-    """One operator applied to a random earlier frame."""
+ALL_OPS = ["head", "tail", "slice", "filter", "take", "query", "select", "distinct", "add",
+           "batches", "collect", "row", "len", "tail", "slice", "select", "distinct", "append", "head",
+           "iter", "next", "next", "zip", "select", "hash"]
+
+
+def gen_op(rng, kinds, names_of, nrows_of, allow=None, extra_names=()):
+    """One operator applied to a random earlier frame (or `next` on an open iterator)."""
     srcs = [i for i, k in enumerate(kinds) if k == "frame"]
+    its = [i for i, k in enumerate(kinds) if k == "iter"]
+    k = rng.choice(allow or ALL_OPS)
+    if k == "next":
+        if not its:
+            k = "iter"
+        else:
+            it = rng.choice(its)
+            return ["next", it, rng.choice([0, 1, 1, 2, 3, 50])]
     s = rng.choice(srcs)
     n = nrows_of[s]
     names = names_of[s]
     w = len(names)
-    k = rng.choice(allow or ["head", "tail", "slice", "filter", "take", "query", "select", "distinct", "add",
-                             "batches", "collect", "row", "len", "tail", "slice", "select", "distinct", "append", "head"])
     if k in ("head", "tail"):
         return [k, s, rng.choice([0, 1, 2, n, n + 1, n + 2, 2 * n, 2 * n + 1, max(n - 1, 0), rng.randint(0, 2 * n + 3)])]
     if k == "slice":
-        o = rng.choice([0, 1, -1, -2, n, -n, -n - 1, -n - 3, n + 2, n - 1, rng.randint(-2 * n - 2, 2 * n + 2)])
-        l = rng.choice([None, 0, 1, 2, n, n + 3, rng.randint(0, n + 2)])
+        o = rng.choice([0, 1, -1, -2, n, -n, -n - 1, -n - 3, n + 2, n - 1, -n + 1, rng.randint(-2 * n - 2, 2 * n + 2)])
+        l = rng.choice([None, 0, 1, 2, n, n + 3, max(n - 1, 0), rng.randint(0, n + 2)])
         return [k, s, o, l]
     if k == "filter":
-        return [k, s, [rng.random() < 0.5 for _ in range(n)]]
+        m = rng.choice([n, n, n, max(n - 1, 0), n + 2, 0])
+        mask = [rng.random() < 0.5 for _ in range(m)]
+        return [k, s, mask, rng.choice(["list", "list", "tuple", "numpy", "iter"])]
     if k == "take":
         m = rng.randint(0, n + 2)
-        return [k, s, [rng.randint(-2, n + 1) for _ in range(m)]]
+        return [k, s, [rng.randint(-2, n + 1) for _ in range(m)], rng.choice(["list", "list", "tuple", "set", "frozenset", "numpy"])]
     if k == "query":
         if w == 0 or rng.random() < 0.2:
             return [k, s, [rng.choice(["true", "false"])]]
         return [k, s, [rng.choice(["eq", "ne"]), rng.randrange(w), rng.choice([0, 1, -1, -2])]]
     if k == "select":
-        pool = list(names) + (["zz"] if rng.random() < 0.15 else [])
+        pool = list(names) + (["zz"] if rng.random() < 0.15 else []) + (list(extra_names) if rng.random() < 0.3 else [])
         m = rng.randint(0, len(pool)) if rng.random() < 0.8 else rng.randint(0, len(pool) + 1)
         attrs = [rng.choice(pool) for _ in range(m)] if pool and rng.random() < 0.25 else rng.sample(pool, min(m, len(pool)))
-        return [k, s, attrs]
+        form = rng.choice(["list", "list", "tuple", "bare"])
+        if form == "bare" and len(attrs) != 1:
+            form = "list"
+        return [k, s, attrs, form]
     if k == "distinct":
         return [k, s]
-    if k == "add":
+    if k in ("add", "zip"):
         return [k, s, rng.choice(srcs)]
     if k == "batches":
-        return [k, s, max(1, rng.choice([1, 2, 3, n, n + 1, n - 1, rng.randint(1, n + 2)]))]
+        return [k, s, max(1, rng.choice([1, 2, 3, n, n + 1, n - 1, max(n // 2, 1), rng.randint(1, n + 2)]))]
     if k == "collect":
         single = rng.random() < 0.35 and w > 0
         m = 1 if single else rng.choice([0, 1, 2, 3, w])
@@ -456,25 +734,61 @@ def gen_op(rng, kinds, names_of, nrows_of, allow=None):
             cols.append(c)
         if single and not cols:
             cols = [0]
-        limit = rng.choice([None, None, -1, 0, 1, n, n + 1, rng.randint(-2, n + 2)])
+        limit = rng.choice([None, None, -1, 0, 1, n, n + 1, max(n - 1, 0), rng.randint(-2, n + 2)])
         return [k, s, cols, limit, "single" if single else "multi", rng.random() < 0.5]
     if k == "row":
         return [k, s, rng.randint(-n - 1, n)]
     if k == "append":
         return [k, s, [rng.choice(VALUES) for _ in range(w)]]
+    if k == "iter":
+        return ["iter", s]
+    if k == "hash":
+        return ["hash", s]
     return ["len", s, rng.randrange(3)]
 
 
 def track(kinds, names_of, nrows_of, case, op):
     """Update generator bookkeeping with the mirror's result for `op`."""
-    res = run_mirror({"names": case["names"], "typed": case["typed"], "rows": case["rows"], "ops": case["ops"] + [op]})
+    res = run_mirror({**case, "ops": case["ops"] + [op]})
     r = res[-1]
     kinds.append(r[0])
     names_of.append(r[1] if r[0] == "frame" else None)
     nrows_of.append(len(r[3]) if r[0] == "frame" else None)
+    if op[0] == "append":
+        nrows_of[op[1]] += 1
 
 
-VALUES = [0, 1, -1, -2]  # (defined before gen_op uses it at call time) -1 and -2 have equal hashes in CPython: rows that collide without being equal
+UNHASHABLE = [0, [1], [1, 2], [], "a", [[1]], [1]]
+VALUES = [0, 1, -1, -2]  # -1 and -2 have equal hashes in CPython: rows that collide without being equal
+ALIAS_POOL = ["a0", "a1", "A", "pts", "c0x"]
+
+
+def gen_schema(rng, w, ints_only, n):
+    """(schema kind, aliases or None): every way a schema can be given."""
+    r = rng.random()
+    if r < 0.40:
+        return "list", None
+    if r < 0.52:
+        return "tuple", None
+    if r < 0.64 and n >= 1:
+        return "dicts", None
+    if not ints_only:
+        return "list", None
+    if r < 0.80:
+        return "typed", None
+    names = ["c%d" % i for i in range(w)]
+    al = []
+    used = set(names)
+    for i in range(w):
+        a = []
+        for _ in range(rng.choice([0, 1, 1, 2])):
+            # mostly fresh aliases; now and then an alias that is another column's *name*
+            cand = rng.choice(ALIAS_POOL) + str(i) if rng.random() < 0.85 else rng.choice(names)
+            if cand != names[i] and cand not in a and (cand in names or cand not in used):
+                a.append(cand)
+                used.add(cand)
+        al.append(a)
+    return "aliased", al
 
 
 def gen_case(rng, max_rows=6, max_cols=4, max_ops=4, big=False):
@@ -482,29 +796,39 @@ def gen_case(rng, max_rows=6, max_cols=4, max_ops=4, big=False):
     n = rng.randint(0, max_rows)
     if big and rng.random() < 0.3:
         n = rng.choice([20, 50, 101, 250])
-    vals = VALUES if rng.random() < 0.8 else [0, 2**61 - 1, "a", "b", None, 2.5]
+    r_ = rng.random()
+    # mostly the hash-colliding ints; sometimes mixed scalars (0 and 2**61-1 collide too); sometimes cells that
+    # cannot be hashed (lists: what ARRAY columns hold) next to equal-looking hashable ones
+    vals = VALUES if r_ < 0.75 else ([0, 2**61 - 1, "a", "b", None, 2.5] if r_ < 0.88 else UNHASHABLE)
     if w == 0:
         n = rng.choice([0, 0, 1, 2])
     rows = [[rng.choice(vals) for _ in range(w)] for _ in range(n)]
-    case = {"names": ["c%d" % i for i in range(w)], "typed": rng.random() < 0.3 and vals is VALUES, "lazy": rng.random() < 0.35,
-            "rows": rows, "ops": [], "read": rng.randrange(3)}
+    sk, al = gen_schema(rng, w, vals is VALUES, n)
+    case = {"names": ["c%d" % i for i in range(w)], "schema": sk, "lazy": rng.choice(LAZIES) if rng.random() < 0.4 else False,
+            "rows": rows, "ops": [], "read": rng.randrange(4)}
+    if al is not None:
+        case["aliases"] = al
+    extra = [a for x in (al or []) for a in x]
     kinds, names_of, nrows_of = ["frame"], [case["names"]], [n]
     spent = [False]
-    lazy = [case["lazy"]]
-    typed_of = [case["typed"]]
+    lazy = [base_is_lazy(case)]
+    typed_of = [kind_of(case) == "typed"]
+    has_iter = set()
     for _ in range(rng.randint(1, max_ops)):
         for _try in range(8):
-            op = gen_op(rng, kinds, names_of, nrows_of)
-            srcs = [op[1]] + ([op[2]] if op[0] == "add" else [])
+            op = gen_op(rng, kinds, names_of, nrows_of, extra_names=extra)
+            srcs = [] if op[0] == "next" else [op[1]] + ([op[2]] if op[0] in ("add", "zip") else [])
             if any(spent[s] for s in srcs):
                 continue  # a generator-backed frame that has been consumed is not read again
-            if op[0] == "append" and (typed_of[op[1]] or any(l and not sp for l, sp in zip(lazy, spent))):
-                continue  # append needs a materialised, names-only frame (typed frames validate dictionaries: C05)
+            if op[0] == "append" and (typed_of[op[1]] or op[1] in has_iter or any(l and not sp for l, sp in zip(lazy, spent))):
+                continue  # append needs a materialised, names-only frame without an open iterator (typed frames validate: C05)
             break
         else:
             break
         track(kinds, names_of, nrows_of, case, op)
-        typed_of.append(case["typed"] and op[0] != "select" and typed_of[op[1]])
+        typed_of.append(op[0] in FRAME_OPS and op[0] != "select" and typed_of[op[1]])
+        if op[0] == "iter":
+            has_iter.add(op[1])
         for s in srcs:
             if lazy[s]:
                 if op[0] in CONSUMES_LAZY_SOURCE:
@@ -519,7 +843,7 @@ def gen_case(rng, max_rows=6, max_cols=4, max_ops=4, big=False):
 
 def exhaustive_small(ctx):
     """Every single operator with every small argument on every frame of <= 3 rows x 2 columns over {-1,-2}."""
-    rngless = []
+    count = 0
     for n in range(0, 4):
         for rows in itertools.product([[-1, 0], [-2, 0], [0, 1]], repeat=n):
             rows = [list(r) for r in rows]
@@ -535,10 +859,12 @@ def exhaustive_small(ctx):
             for r in range(0, n + 1):
                 for ix in itertools.combinations(range(-1, n + 1), min(r, 2)):
                     ops.append(["take", 0, list(ix)])
-            for attrs in [[], ["c0"], ["c1"], ["c0", "c1"], ["c1", "c0"], ["c1", "c1"], ["zz", "c1"]]:
+            for attrs in [[], ["c0"], ["c1"], ["c0", "c1"], ["c1", "c0"], ["c1", "c1"], ["zz", "c1"], ["k1"], ["k0", "c1"]]:
                 ops.append(["select", 0, attrs])
             ops.append(["distinct", 0])
+            ops.append(["hash", 0])
             ops.append(["add", 0, 0])
+            ops.append(["zip", 0, 0])
             for b in range(1, n + 2):
                 ops.append(["batches", 0, b])
             for cols in [[0], [1], [1, 0], [0, 0, 1], ["c1"], [2], [-1], []]:
@@ -546,10 +872,36 @@ def exhaustive_small(ctx):
                     ops.append(["collect", 0, cols, lim, "multi", True])
             for i in range(-n - 1, n + 1):
                 ops.append(["row", 0, i])
-            for op in ops:
-                for lazy in (False, True):
-                    yield {"names": ["c0", "c1"], "typed": False, "lazy": lazy, "rows": rows, "ops": [op], "read": len(rngless) % 3}
-                    rngless.append(0)
+            progs = [[op] for op in ops]
+            # partial / abandoned / interleaved iteration, then another operator on the same frame
+            for k1 in range(0, n + 2):
+                progs.append([["iter", 0], ["next", 1, k1]])
+                progs.append([["iter", 0], ["next", 1, k1], ["head", 0, n]])
+                progs.append([["iter", 0], ["next", 1, k1], ["len", 0, 0], ["next", 1, n + 1]])
+                for k2 in range(0, n + 2):
+                    progs.append([["iter", 0], ["iter", 0], ["next", 1, k1], ["next", 2, k2], ["next", 1, n], ["next", 2, n]])
+            for prog in progs:
+                for i, (lazy, schema) in enumerate([(False, "list"), ("gen", "list"), (False, "aliased"), ("iter", "aliased"),
+                                                    (False, "tuple"), ("map", "typed"), (False, "dicts")]):
+                    if schema == "dicts" and not rows:
+                        continue
+                    if i >= 4 and prog[0][0] not in ("select", "add", "collect", "iter", "distinct", "zip"):
+                        continue  # the other schema kinds only where the schema object is looked at
+                    c = {"names": ["c0", "c1"], "schema": schema, "lazy": lazy, "rows": rows, "ops": prog, "read": count % 4}
+                    if schema == "aliased":
+                        c["aliases"] = [["k0"], ["k1", "c0"]] if count % 2 else [["k0", "k1"], []]
+                    yield c
+                    count += 1
+    # rows with cells that cannot be hashed: every operator once, every small frame over a 3-row alphabet
+    for n in range(0, 4):
+        for rows in itertools.product([[[1], 0], [[1, 2], 0], [0, [1]]], repeat=n):
+            rows = [list(r) for r in rows]
+            for op in ([["distinct", 0]], [["distinct", 0], ["distinct", 1]], [["add", 0, 0], ["distinct", 1]], [["select", 0, ["c1", "c0"]], ["distinct", 1]],
+                       [["take", 0, [0, 2]]], [["filter", 0, [True] * n]], [["tail", 0, 2], ["distinct", 1]], [["collect", 0, [0, "c1"], None, "multi", True]],
+                       [["query", 0, ["eq", 1, 0]], ["distinct", 1]], [["batches", 0, 2]], [["iter", 0], ["next", 1, 1], ["distinct", 0], ["next", 1, 9]]):
+                for lazy in (False, "gen"):
+                    yield {"names": ["c0", "c1"], "schema": "list", "lazy": lazy, "rows": rows, "ops": op, "read": count % 4}
+                    count += 1
 
 
 def run(ctx):
@@ -557,19 +909,25 @@ def run(ctx):
              "distinct by canonical JSON of (frame, program)")
     batch = []
     n_ex = 0
+    seen3 = 0
     for c in exhaustive_small(ctx):
-        if ctx.tier == "quick" and len(c["rows"]) > 3:
-            continue
+        if len(c["rows"]) > 2:
+            seen3 += 1
+            if ctx.tier == "quick" and seen3 % 3:
+                continue  # quick: every frame of 0..2 rows, a third of the 3-row cases
         batch.append(c)
         n_ex += 1
         if len(batch) >= 4000:
             evaluate(ctx, batch)
             batch = []
     evaluate(ctx, batch)
-    ctx.note("exhaustive_scope", "every single operator with every small argument on every frame of 0..%d rows x 2 columns over a 3-row alphabet with hash-colliding rows, eager and lazy (%d cases); then random programs"
-             % (2 if ctx.tier == "quick" else 3, n_ex))
+    ctx.note("exhaustive_scope", "every single operator with every small argument, and every partial / interleaved iteration "
+             "prefix followed by another use, on every frame of 0..%d rows x 2 columns over a 3-row alphabet with hash-colliding "
+             "rows; schema given as list, tuple, RelationSchema with and without aliases, dictionaries; list-, generator-, "
+             "iterator-, map-backed (%d cases%s); then random programs"
+             % (3, n_ex, "; of the 3-row cases every third" if ctx.tier == "quick" else ""))
     n_random = ctx.scale(30000, 300000)
-    depth = ctx.scale(4, 6)
+    depth = ctx.scale(5, 7)
     done = 0
     while done < n_random and ctx.time_left() > 5:
         cases = [gen_case(ctx.rng, max_ops=depth, big=(ctx.tier == "thorough")) for _ in range(2000)]
